@@ -604,7 +604,7 @@ def _main(chk: Check, impl: Impl, replay: dict | None) -> int:
     sch_inputs = [c["input"]["arg"] for c in corpus if c["input"]["kind"] == "schemas"]
     spool = ["foo_bar", "FooBar", "fooBar", "foo-bar", "Foo", "foo", "FOO", "a_b", "a-b", "AB", "Ab", "aB", "x_y_z", "XYZ",
              "Xyz", "user_v2", "UserV2", "HTTPServer", "HttpServer", "type", "Type_", "none", "None", "$", "-", "1a", "_1a",
-             "Pet", "pet", "Pets", "A", "a", "é", "x"]
+             "Pet", "pet", "Pets", "A", "a", "é", "x", "n_o_n_e", "t_r_u_e", "i_d", "NONE"]
     for names in ([list(t) for t in itertools.product(spool[:20], repeat=2)]
                   + [[rng.choice(spool) for _ in range(rng.randint(1, 5))] for _ in range(300 * scale)]
                   + [[s] for s in spool] + [[s] for s in exhaustive(2)]):
